@@ -63,6 +63,18 @@ def enumerate_paths(body, atom_fn, leaf_fn, start=0, max_paths=200000, stop_bloc
     return out
 
 
+def _tuple_field_operand(body, p):
+    """operand a tuple field was built from, when place p is `tuple.i` of a tuple aggregate with a single definition in this body"""
+    pr = [e for e in p["proj"] if e != "*"]
+    if len(pr) != 1 or not isinstance(pr[0], dict) or "f" not in pr[0]:
+        return None
+    df = single_def(body, p["l"])
+    if df is None or df["kind"] != "assign" or df["rv"]["k"] != "agg" or df["rv"].get("agg") != "tuple":
+        return None
+    i = pr[0]["f"]
+    return df["rv"]["ops"][i] if i < len(df["rv"]["ops"]) else None
+
+
 def switch_source(body, t):
     """classify the discriminant of a switch: ('discr', place_root(local, projnames), variants) |
     ('call', call_term, polarity) | ('int', place) | None"""
@@ -71,6 +83,12 @@ def switch_source(body, t):
         return None
     l = d["p"]["l"]
     pol = True
+    if d["p"]["proj"]:
+        # `match (a, b, c)`: a switch on field i of a tuple built here tests the operand the tuple was built from
+        q = _tuple_field_operand(body, d["p"])
+        if q is None or "p" not in q or q["p"]["proj"]:
+            return ("local", l, pol) if not d["p"]["proj"] else None
+        l = q["p"]["l"]
     for _ in range(6):
         df = single_def(body, l)
         if df is None:
@@ -92,6 +110,11 @@ def switch_source(body, t):
         if rv["k"] in ("use", "cast") and "p" in rv["ops"][0] and not rv["ops"][0]["p"]["proj"]:
             l = rv["ops"][0]["p"]["l"]
             continue
+        if rv["k"] in ("use", "cast") and "p" in rv["ops"][0] and rv["ops"][0]["p"]["proj"]:
+            q = _tuple_field_operand(body, rv["ops"][0]["p"])
+            if q is not None and "p" in q and not q["p"]["proj"]:
+                l = q["p"]["l"]
+                continue
         if rv["k"] == "bin":
             return ("bin", rv, pol, df["bi"])
         return ("rv", rv, pol)
